@@ -82,6 +82,7 @@ class CohGen:
         self.cur_class = None
         self.cur_templated = False
         self._directed = False
+        self._kw_used = set()
         self._sigs = []       # parameter lists (type, name) of scalar-only callables generated so far
 
     # ------------------------------------------------------------ names
@@ -348,7 +349,11 @@ class CohGen:
             # enumerators that are keywords of the target language but fine C++ identifiers
             kw = ['None', 'pass', 'in', 'from', 'yield', 'global', 'is'] if self.target == 'pybind' else \
                 ['end', 'global', 'function', 'otherwise', 'persistent', 'elseif', 'parfor']
-            vals.insert(self.r.randint(0, len(vals)), self.r.choice(kw))
+            kw = [k for k in kw if k not in self._kw_used]      # (unscoped enums share their scope: each keyword once)
+            if kw:
+                k = self.r.choice(kw)
+                self._kw_used.add(k)
+                vals.insert(self.r.randint(0, len(vals)), k)
         vals = tuple(vals)
         kw = self.r.choice(['enum', 'enum class'])
         self.enums.append({'ns': self.cur_ns, 'cls': cls, 'name': name, 'vals': vals, 'kw': kw,
